@@ -106,7 +106,10 @@ func specC10(tier string, variant int) *SeqSpec {
 		s.Sweep = append(s.Sweep, probe(), probe(cs(0, "UNWATCH")), probe(cs(0, "MULTI"), cs(0, "DISCARD")), probe(cs(0, "WATCH", "u")),
 			probe(cs(1, "SET", "ws", "x"), cs(0, "UNWATCH")), probe(cs(1, "SET", "ws", "x"), cs(0, "MULTI"), cs(0, "DISCARD")), probe(cs(1, "SET", "ws", "x"), cs(0, "MULTI"), cs(0, "EXEC")),
 			probe(cs(1, "SET", "ws", "x"), cs(0, "WATCH", "ws")), probe(cs(1, "RPUSH", "wl", "x"), cs(0, "WATCH", "wl")), probe(cs(1, "SET", "ws", "x"), cs(1, "SET", "ws", "5")), probe(cs(1, "RPUSH", "wl", "x"), cs(1, "RPOP", "wl")),
-			probe(cs(1, "RENAME", "ws", "tmp"), cs(1, "RENAME", "tmp", "ws")), probe(cs(1, "DEL", "ws"), cs(1, "SET", "ws", "5")), probe(cs(1, "SET", "wn", "x"), cs(1, "DEL", "wn")))
+			probe(cs(1, "RENAME", "ws", "tmp"), cs(1, "RENAME", "tmp", "ws")), probe(cs(1, "DEL", "ws"), cs(1, "SET", "ws", "5")), probe(cs(1, "SET", "wn", "x"), cs(1, "DEL", "wn")),
+			// the key disappears through a flush and is re-created with the same content
+			probe(cs(1, "FLUSHALL"), cs(1, "SET", "ws", "5")), probe(cs(1, "FLUSHDB"), cs(1, "RPUSH", "wl", "e", "e2")), probe(cs(0, "FLUSHALL"), cs(0, "SET", "ws", "5")),
+			probe(cs(1, "FLUSHDB"), cs(1, "HSET", "wh", "f", "1", "g", "x")), probe(cs(1, "FLUSHALL"), cs(1, "SADD", "wz", "m", "n2")))
 		// chained: operations after which the sweep is repeated (a second transaction on the same
 		// connection, a re-established watch, a modified-but-unwatched past)
 		s.Alphabet = []Op{probe(), probe(cs(1, "SET", "ws", "again")), cs(0, "UNWATCH"), Op{Sess: 0, Args: append([]string{"WATCH"}, c10Watched...)}, cs(1, "SET", "u", "x"), expire}
@@ -187,6 +190,15 @@ func specC14(tier string) *SeqSpec {
 		}
 	}
 	A = append(A, cs(0, "MULTI"), cs(0, "EXEC"), cs(0, "WATCH", "k"), cs(1, "SELECT", "x"), cs(1, "HELLO", "2"), cs(1, "KEYS", "*"))
+	// a database switch inside a transaction: the commands queued after it run in the new database,
+	// the connection stays there afterwards
+	for sess := 0; sess < 2; sess++ {
+		for _, db := range []string{"1", "0", "15"} {
+			A = append(A, Op{Sess: sess, Args: []string{"MULTI"}, Then: []Op{cs(sess, "SET", "k", "t0"), cs(sess, "SELECT", db), cs(sess, "GET", "k"), cs(sess, "SET", "k", "t"+db), cs(sess, "DBSIZE"), cs(sess, "EXEC")}})
+		}
+		A = append(A, Op{Sess: sess, Args: []string{"MULTI"}, Then: []Op{cs(sess, "SELECT", "1"), cs(sess, "SELECT", "16"), cs(sess, "SET", "k", "u"), cs(sess, "EXEC")}},
+			Op{Sess: sess, Args: []string{"MULTI"}, Then: []Op{cs(sess, "SELECT", "1"), cs(sess, "FLUSHDB"), cs(sess, "DISCARD")}})
+	}
 	s.Alphabet = A
 	s.Depth = 3
 	if tier == "thorough" {
